@@ -1,5 +1,5 @@
 CONSTANTS
-  MaxSize = 10
+  MaxSize = 12
   Prof <- ProfFault
   MathTable <- NoTable
 INIT GInit
